@@ -26,3 +26,9 @@ func (v *VerifQueue) Len() int { return v.q.len() }
 
 // VerifQueueLen returns el.eventQ.len().
 func VerifQueueLen(el *EventLoop) int { return el.eventQ.len() }
+
+// VerifTickerID reports the ticker id of a ticker's start event (the internal event AddTicker queues).
+func VerifTickerID(ev any) (int, bool) {
+	e, ok := ev.(startTickerEvent)
+	return e.tickerID, ok
+}
